@@ -16,7 +16,7 @@
    lookup chain is the class itself; rows of generated user classes are walked along the MRO by the model.
 
    This file contains definitions only (no proofs). *)
-From Coq Require Import List Bool Arith PeanoNat.
+From Coq Require Import List Bool PeanoNat.
 Import ListNotations.
 
 Definition cls := nat.
